@@ -57,6 +57,28 @@ CHECKS = {
                 note="Bounded: k<=1 (quick) / k<=2 (thorough), W<=3, 3 levels; wall-clock is a logical clock ticking per iteration; "
                      "scripted workers (the property excludes the simulator for 'left running').",
                 technique="stateless model checking of the implementation (deviation-bounded enumeration of environment answers and fault-injection points)"),
+    "C10": dict(engine="tunerx", category="model_checking", design_ref="§2 C10",
+                text="Stateless deviation-bounded exploration of the real Tuner.run + UserBlackboxBackend + SimulatorCallback over "
+                     "small BlackboxTabular tables with the real time spent outside the backend as an explorer choice at every backend "
+                     "call; oracle: every delivered result of a run equals, in order, what the table prescribes for configuration, the "
+                     "trial's seed and resume point, with time stamp = start of run + delays + repaired elapsed time; monotone clock; "
+                     "sleep charged once; nothing of a previous run delivered.",
+                note="Bounded: k<=1 (quick) / k<=2 (thorough) non-zero outside-time answers from {0.3, 7.0}s, 4-6 table configurations, "
+                     "1-2 seeds, 3-4 fidelities, W<=2, 4 trials; start time of a run is observed from the backend clock, not recomputed.",
+                technique="stateless model checking of the implementation (deviation-bounded enumeration of outside-time answers, table-replay oracle)"),
+    "C13": dict(engine="schedx+tunerx", category="fault_enumeration", design_ref="§2 C13",
+                text="Fault enumeration at two levels: (A) BFS over scheduler event histories with fail(t) enabled at every point of every "
+                     "running trial's life (budget F) on the C03/C04/C05 worlds and on PBT/DEHB/median/MOASHA/RUSH/cost/FIFO/GP-searcher "
+                     "schedulers; (B) the real Tuner.run with <=2 crashes/external stops placed at every poll x max_failures.",
+                note="Bounded: F<=1 (quick) / F<=2 (thorough) at scheduler level, 2 faults at tuner level, W<=3, T<=4; PASHA with several "
+                     "brackets excluded here (known finding under C04).",
+                technique="exhaustive fault-placement enumeration inside explicit-state (BFS) and stateless (deviation-bounded) model checking of the implementation"),
+    "C17": dict(engine="tunerx", category="model_checking", design_ref="§2 C17",
+                text="Stateless deviation-bounded exploration of the real Tuner.run + StoreResultsCallback for scheduler x mode x metric "
+                     "value alphabet x store interval: rows vs delivered results, CSV round trip, best configuration (tuner and loaded "
+                     "experiment), per-trial and overall statistics recomputed from what the backend handed to the loop.",
+                note="Bounded: k<=1 (quick) / k<=2 (thorough), W<=2, 4 trials, 3 levels, a 12-value alphabet for extra metrics.",
+                technique="stateless model checking of the implementation (deviation-bounded enumeration of environment answers, recomputation oracle)"),
 }
 
 NOT_YET = {}
